@@ -1,0 +1,76 @@
+//go:build verif
+
+package snowflake_server
+
+// Machine-checked contracts (read by /verif/engine; comment-only, compiled only with -tags verif).
+//
+// clientIDMap against an abstract history of effective Set calls (ghost state):
+//   m.n          number of effective Sets so far
+//   m.hid[k]     ClientID of the k-th Set,  m.haddr[k] its address
+// "remembers exactly the most recent cap Sets" = Get answers from the window [max(0,n-cap), n).
+//
+//@ default model int
+//@ ghost field clientIDMap.n int
+//@ ghost field clientIDMap.hid refseq
+//@ ghost field clientIDMap.haddr refseq
+//
+// slotOf: the ring slot that holds history entry k (closed form, no modulo); stampOf: its inverse.
+//@ spec func slotOf(oldest int, n int, cap int, k int) int = ite(k >= n - oldest, k - (n - oldest), k - (n - oldest) + cap)
+//@ spec func stampOf(oldest int, n int, cap int, i int) int = ite(i < oldest, n - oldest + i, n - oldest + i - cap)
+//@ spec func inWindow(n int, cap int, k int) bool = 0 <= k && n - cap <= k && k < n
+//
+//@ invariant clientIDMap(m) guard lock: m.current != nil
+//@   protects entries, oldest, current, ghost clientIDMap.n, ghost clientIDMap.hid, ghost clientIDMap.haddr
+//@   clause {shape} m.n >= 0 && (len(m.entries) == 0 ==> m.oldest == 0 && m.n == 0) && (len(m.entries) > 0 ==> 0 <= m.oldest && m.oldest < len(m.entries)) && m.n >= m.oldest && (m.n - m.oldest == 0 || m.n - m.oldest >= len(m.entries))
+//@   clause {slots-hold-history} forall k int :: inWindow(m.n, len(m.entries), k) ==> m.entries[slotOf(m.oldest, m.n, len(m.entries), k)].clientID == m.hid[k] && m.entries[slotOf(m.oldest, m.n, len(m.entries), k)].addr == m.haddr[k] && has(m.current, m.hid[k]) && stampOf(m.oldest, m.n, len(m.entries), m.current[m.hid[k]]) >= k
+//@   clause {current-points-into-window} forall id turbotunnel.ClientID :: has(m.current, id) ==> 0 <= m.current[id] && m.current[id] < len(m.entries) && inWindow(m.n, len(m.entries), stampOf(m.oldest, m.n, len(m.entries), m.current[id])) && m.hid[stampOf(m.oldest, m.n, len(m.entries), m.current[id])] == id
+//
+// The process-wide map is created by the package initialiser and never reassigned.
+//@ global clientIDAddrMap != nil
+//@   props C18
+//
+//@ func newClientIDMap(capacity int) (r *clientIDMap)
+//@   props C18
+//@   requires capacity >= 0
+//@   at exit ghost r.n = 0
+//@   ensures r != nil && fresh(r)
+//@   ensures len(r.entries) == capacity
+//@   ensures r.n == 0
+//@   ensures inv(r)
+//
+//@ func (m *clientIDMap) Set(clientID turbotunnel.ClientID, addr net.Addr)
+//@   props C18
+//@   requires m != nil
+//@   at call Unlock ghost m.hid[m.n] = clientID if len(m.entries) != 0
+//@   at call Unlock ghost m.haddr[m.n] = addr if len(m.entries) != 0
+//@   at call Unlock ghost m.n = m.n + 1 if len(m.entries) != 0
+//
+// Get: found iff the id occurs among the most recent cap Sets; the address is that of its latest Set.
+//@ func (m *clientIDMap) Get(clientID turbotunnel.ClientID) (a net.Addr, ok bool)
+//@   props C18
+//@   requires m != nil
+//@   ensures {found-iff-in-window} ok <==> (exists k int :: inWindow(m.n, len(m.entries), k) && m.hid[k] == clientID)
+//@   ensures {latest-address} ok ==> (exists k int :: inWindow(m.n, len(m.entries), k) && m.hid[k] == clientID && a == m.haddr[k] && (forall j int :: k < j && j < m.n ==> m.hid[j] != clientID))
+//@   ensures {nil-when-absent} !ok ==> a == nil
+//
+// clientAddr: the sanitiser cases of the property, with net.ParseIP / IsUnspecified / TCPAddr.String as
+// uninterpreted pure functions (validIP, unspecIP, tcpAddrString).
+//@ func clientAddr(clientIPParam string) (r net.Addr)
+//@   props C18
+//@   ensures {never-nil} r != nil && tagis(r, ClientMapAddr)
+//@   ensures {empty-when-absent-unparseable-unspecified} clientIPParam == "" || !validIP(clientIPParam) || unspecIP(clientIPParam) ==> unbox(r, ClientMapAddr) == ""
+//@   ensures {stub-port} clientIPParam != "" && validIP(clientIPParam) && !unspecIP(clientIPParam) ==> unbox(r, ClientMapAddr) == tcpAddrString(clientIPParam, 1, "")
+//
+//@ func (conn *SnowflakeClientConn) RemoteAddr() (r net.Addr)
+//@   props C18
+//@   requires conn != nil
+//@   ensures r == conn.address
+//
+// acceptStreams: every connection handed to the accept queue carries the address looked up for this
+// session's ClientID, and that address is never nil (callers call .String() on RemoteAddr()).
+//@ func (l *SnowflakeListener) acceptStreams(conn *kcp.UDPSession) (err error)
+//@   props C18
+//@   requires l != nil && conn != nil
+//@   loop 1 invariant true
+//@   at call queueConn assert {address-is-looked-up-address} unbox(arg1, *SnowflakeClientConn).address == addr
+//@   at call queueConn assert {remote-addr-never-nil} unbox(arg1, *SnowflakeClientConn).address != nil
